@@ -101,6 +101,9 @@ func (h *handshake) Accept(node gen.NodeHandshake, conn net.Conn, options gen.Ha
 	if intro.Node == node.Name() {
 		return result, fmt.Errorf("malformed handshake Introduce message (same name)")
 	}
+	if err := checkIntroduce(intro); err != nil {
+		return result, err
+	}
 	hash := sha256.New()
 	hash.Write([]byte(fmt.Sprintf("%s:%s", salt, options.Cookie)))
 	if intro.Digest != fmt.Sprintf("%x", hash.Sum(nil)) {
